@@ -11,6 +11,7 @@ evaluator.
 import bisect
 import collections
 import decimal
+import os
 from fractions import Fraction
 from typing import (
     Any, List, Tuple, Dict, Union, Callable, Optional, Set, Collection
@@ -581,8 +582,16 @@ class BiproportionalEvaluator:
         # Party coefficients are computed to be consistent with the initial
         # party-proportional seat allocation result.
         party_coefs = self._initial_party_coefs(votes, result)
+        if os.environ.get('VOTELIB_VERIF'):
+            self._verif_trace = []
         # Iterate the tie-and-transfer algorithm.
         while True:
+            if os.environ.get('VOTELIB_VERIF'):
+                self._verif_trace.append((
+                    {d: dict(r) for d, r in result.items()},
+                    dict(district_coefs),
+                    dict(party_coefs),
+                ))
             cur_district_seats = votelib.convert.ConstituencyTotals().convert(
                 result
             )
